@@ -1,9 +1,9 @@
 #!/bin/sh
-# development helper: evaluate one delivery of seed round 5: seed5_batch.sh Cxx A|B [extra props...]
+# development helper: evaluate one delivery of a seed round (ROUND=5|6 ...): seed_batch.sh Cxx A|B [extra props...]
 p="$1"; ab="$2"; shift 2
-src=/tmp/seed5_out/$p/$ab
+src=/tmp/seed${ROUND:-5}_out/$p/$ab
 low=$(echo $ab | tr AB ab)
-name=$p-r5$low
+name=$p-r${ROUND:-5}$low
 demo=$(ls $src/*_test.go | head -1)
 pkg=$(grep -m1 '^package ' $demo | awk '{print $2}')
 case "$pkg" in
